@@ -233,6 +233,11 @@ def _parse_tlc_stats(text):
     if m:
         st["depth"] = int(m.group(1))
     st["ok"] = "Model checking completed. No error has been found." in text
+    m = re.search(r"Progress: (\d+) states checked, (\d+) traces generated", text)
+    if m and "The number of states generated" in text:          # a simulation run that ended normally
+        st["generated"] = int(m.group(1))
+        st["traces"] = int(m.group(2))
+        st["ok"] = "is violated" not in text and "Error:" not in text
     st["violated"] = re.findall(r"Invariant (\w+) is violated", text)
     st["errors"] = [l for l in text.splitlines() if l.startswith("Error:")][:5]
     return st
@@ -255,11 +260,11 @@ def parse_prints(text, tag):
 
 
 def tlc_run(module, cfg, tag, timeout=3000, workers=None, env_extra=None, simulate=None, cache=True,
-            coverage=False, jvm=None):
+            coverage=False, jvm=None, extra=None):
     """Run TLC on spec/<module>.tla with spec/<cfg>; returns (stats, raw_output_path).
     Results are cached under work/tlc/<spec-hash>-<tag>.out (they depend on the spec only)."""
     os.makedirs(os.path.join(WORK, "tlc"), exist_ok=True)
-    key = spec_hash(module, cfg, str(simulate) + json.dumps(env_extra or {}, sort_keys=True))
+    key = spec_hash(module, cfg, str(simulate) + json.dumps(env_extra or {}, sort_keys=True) + (json.dumps(extra) if extra else ""))
     outp = os.path.join(WORK, "tlc", "%s-%s.out" % (tag, key))
     if cache and os.path.exists(outp + ".ok"):
         text = open(outp).read()
@@ -274,6 +279,8 @@ def tlc_run(module, cfg, tag, timeout=3000, workers=None, env_extra=None, simula
         cmd += ["-coverage", "1"]
     if simulate:
         cmd += ["-simulate", simulate]
+    if extra:
+        cmd += list(extra)
     cmd += ["-config", os.path.join(SPEC, cfg), os.path.join(SPEC, module + ".tla")]
     env = dict(os.environ)
     # TLC unpacks its standard modules into java.io.tmpdir on every run: keep that inside work/ and remove it afterwards
